@@ -152,7 +152,12 @@ func c08cli(c *h.Ctx) {
 					o.Set("variables", s.vars)
 				}
 				if s.dir != "" {
-					o.Set("dir", s.dir)
+					if (len(s.id)+len(s.dir))%2 == 0 {
+						// the stage's dir given as a template over a built-in variable (same directory)
+						o.Set("dir", "{{.Root}}"+strings.TrimPrefix(s.dir, real))
+					} else {
+						o.Set("dir", s.dir)
+					}
 				}
 				if len(s.deps) > 0 {
 					var d []interface{}
